@@ -171,7 +171,8 @@ def find_peaks(data, threshold, *, box_size=3, footprint=None, mask=None,
 
     # Exclude peaks that are masked
     if mask is not None:
-        mask = np.asanyarray(mask)
+        # ~mask of a 0/1 integer mask is never zero
+        mask = np.asanyarray(mask).astype(bool)
         if data.shape != mask.shape:
             raise ValueError('data and mask must have the same shape')
         peak_goodmask = np.logical_and(peak_goodmask, ~mask)
